@@ -359,8 +359,9 @@ class Hist:
     """runs one history on the implementation, records the trace for the
     correspondence check and applies the oracle"""
 
-    def __init__(self, ctx, Vector, fail):
+    def __init__(self, ctx, Vector, fail, probe_every=6):
         self.ctx, self.Vector, self.fail = ctx, Vector, fail
+        self.nprobe, self.probe_every = 0, probe_every
 
     def invariants(self, fn, st, replay):
         n = len(st["names"])
@@ -392,7 +393,6 @@ class Hist:
     def run(self, ctor, ops, tag):
         Vector, ctx = self.Vector, self.ctx
         base = {"ctor": ctor, "ops": [list(o) for o in ops]}
-        cm.mark(base)
         try:
             v, args = construct(Vector, ctor, as_array=True)
             s0 = snap(v)
@@ -467,7 +467,13 @@ class Hist:
                 if v is vb:
                     self.fail(f"C12/{fn}/not-independent", replay, f"{fn} returned the same object")
                 else:
-                    # independence: edit a throw-away copy in place, the source must not move (and back)
+                    self.nprobe += 1
+                    if len(v.values) and np.shares_memory(v.values, vb.values):
+                        self.fail(f"C12/{fn}/not-independent", replay,
+                                  f"{fn}: the copy and the original share their values array")
+                if v is not vb and self.nprobe % self.probe_every == 1:
+                    # independence (every probe_every-th copy): edit a throw-away copy in place, the
+                    # source must not move, and the other way round
                     try:
                         a = vb.clone() if kind == "clone" else Vector.from_dict(vb.to_dict())
                         sa = snap(vb)
